@@ -24,7 +24,7 @@ LEVEL = "exploration"
 RULE = (
     "Hypothesis builds blueprints (<= 6 nodes quick, <= 10 thorough; nested, shared and cyclic "
     "sub-configurations, task outputs, lists, dicts, enums, pre/init tasks) plus build variants "
-    "(keyword order, dict insertion order, constructor vs attribute assignment), a sealing order and "
+    "(keyword order, dict insertion order, constructor vs attribute assignment, identifier requests while the objects are being filled in), a sealing order and "
     "a list of identifier requests before/after sealing; non-trivial = >= 2 nodes, one of {shared node, "
     "cycle, task output, container with >= 2 entries} and a non-identity variant; distinct = distinct "
     "canonical JSON of the case. 'cross-process' cases are rebuilt by worker processes with other "
@@ -48,6 +48,8 @@ def variants(draw):
         "kw": draw(st.booleans()),
         "dicts": draw(st.booleans()),
         "assign": draw(st.sampled_from([0, 0, 30, 100])),
+        # identifiers are also requested while the configurations are being filled in
+        "early": draw(st.booleans()),
     }
 
 
@@ -148,7 +150,7 @@ def prop_variants(ctx, case):
                     f"(seal order {case['seal']}, requests {case['requests']}, variant {variant}): {distinct}",
                 )
             elif distinct[0] != base[i]:
-                which = [k for k in ("kw", "dicts", "assign") if variant and variant.get(k)] if variant else ["sealing/requests"]
+                which = [k for k in ("kw", "dicts", "assign", "early") if variant and variant.get(k)] if variant else ["sealing/requests"]
                 ctx.violation(
                     "unstable:sealed-cycle" if i in cyc else "differs:" + ("+".join(which) or "sealing/requests"),
                     f"node {i} ({bp['nodes'][i]['cls']}) identifier {distinct[0]} under variant {variant}, seal {case['seal']}, "
@@ -169,7 +171,7 @@ def prop_variants(ctx, case):
     sealed_cycle = bool(cyc) and (bool(case["seal"]) or any(nd.get("submit") for nd in bp["nodes"]))
     if sealed_cycle:
         classes.append("sealed-cycle")
-    nonid = any(v["kw"] or v["dicts"] or v["assign"] for v in case["variants"]) or bool(case["seal"])
+    nonid = any(v["kw"] or v["dicts"] or v["assign"] or v.get("early") for v in case["variants"]) or bool(case["seal"])
     nt = n >= 2 and nonid and any(c in classes for c in ("shared", "cycle", "task-output-used", "container>=2"))
     ctx.record(nt, classes)
 
